@@ -492,4 +492,110 @@ theorem protocol_shares_at_most_100 :
     NETWORK_FEES_PROPOSER_SHARE_PERCENTAGE + NETWORK_FEES_VALIDATOR_SET_SHARE_PERCENTAGE ≤ 100 := by decide
 
 
+/-- **collected_equals_total_cost** (the property, on the model): for every reachable reserve that is
+eligible for commit (loan repaid) and whose unit prices satisfy the exactness side condition, for both
+outcomes (success / failure), `finalize_fees_for_commit` passes all three sanity assertions and
+* the XRD taken from the locking vaults plus the free credit used equals the reported total cost,
+* every vault pays between 0 and what it locked (the rest is refunded to it),
+* proposer + validator set + burn + royalties = total cost, each share non-negative.
+Hypotheses `hp hv hb`: the three share computations do not overflow `Decimal` (they are `unwrap`s in
+the code: "no chance to overflow considering current costing parameters"). -/
+theorem collected_equals_total_cost (r : Reserve) (s : Summary) (sh : Shares) (success : Bool) (total p v b : Int)
+    (h : Inv r) (hrep : r.owed = 0)
+    (hx : Exact r.cp.execPrice r.tip) (hy : Exact r.cp.finPrice r.tip)
+    (hrange : ∀ l ∈ r.locked, l.2.1 ≤ DEC_MAX)
+    (hf : finalize r = some s) (ht : s.totalCost = some total)
+    (hp : s.toProposer sh = some p) (hv : s.toValidators sh = some v) (hb : s.toBurn sh = some b)
+    (h1 : sh.tipsProposer + sh.tipsValidators ≤ 100) (h2 : sh.feesProposer + sh.feesValidators ≤ 100) :
+    ∃ d, finalizeFees s sh r.freeCredit success = .ok d ∧
+      d.collected = total ∧ sumPayments d.payments + d.fromFreeCredit = total ∧
+      0 ≤ d.fromFreeCredit ∧ d.fromFreeCredit ≤ r.freeCredit ∧
+      PayBounded d.payments s.locked.reverse ∧
+      d.toProposer + d.toValidators + d.toBurn + s.royaltyCost = total ∧
+      0 ≤ d.toProposer ∧ 0 ≤ d.toValidators ∧ 0 ≤ d.toBurn := by
+  obtain ⟨f1, f2, f3, f4, f5, f6, f7, -⟩ := finalize_spec r s h hf
+  have hq := proportion_nonneg r.tip
+  have ec0 : 0 ≤ s.execCost := by rw [f1]; exact Int.mul_nonneg h.prices.1 (Int.natCast_nonneg _)
+  have fc0 : 0 ≤ s.finCost := by rw [f2]; exact Int.mul_nonneg h.prices.2.1 (Int.natCast_nonneg _)
+  have tc0 : 0 ≤ s.tipCost := by
+    rw [f3]
+    have a := Int.ediv_nonneg (Int.mul_nonneg ec0 hq) (le_of_lt ONE_pos)
+    have b := Int.ediv_nonneg (Int.mul_nonneg fc0 hq) (le_of_lt ONE_pos)
+    omega
+  have st0 : 0 ≤ s.storageCost := by rw [f4]; exact h.sto
+  have ro0 : 0 ≤ s.royaltyCost := by rw [f5]; exact h.roy.2
+  have htot := totalCost_some s total ht
+  -- total ≤ DEC_MAX because the last checked_add succeeded
+  have htmax : total ≤ DEC_MAX := by
+    unfold Summary.totalCost at ht
+    simp only [daddAll] at ht
+    split at ht
+    · split at ht
+      · split at ht
+        · split at ht
+          · rename_i d hd
+            cases ht
+            unfold dadd inDec at hd
+            split at hd
+            · rename_i hin; simp only [decide_eq_true_eq] at hin; cases hd; exact hin.2
+            · cases hd
+          · cases ht
+        · cases ht
+      · cases ht
+    · cases ht
+  have hcover := repaid_reserve_covers_total_cost r s total h hrep hx hy hf ht
+  have hlocks : ∀ l ∈ s.locked.reverse, 0 ≤ l.2.1 ∧ l.2.1 ≤ DEC_MAX := by
+    intro l hl
+    rw [f7] at hl
+    have hl' := List.mem_reverse.mp hl
+    exact ⟨h.locks l hl', hrange l hl'⟩
+  obtain ⟨ps, rem, hps, hrem, hsum, hpb⟩ := takeLoop_spec success s.locked.reverse total (by omega) htmax hlocks
+  have hel : ncLocked r.locked ≤ eligible success s.locked.reverse := by
+    have := ncLocked_le_eligible success s.locked.reverse (fun l hl => (hlocks l hl).1)
+    rw [f7, ncLocked_reverse] at this
+    rw [f7]; exact this
+  have hfree0 := h.prices.2.2.2.2.2
+  -- network fees
+  obtain ⟨nf, hnf⟩ : ∃ nf, s.networkFees = some nf := by
+    unfold Summary.toBurn at hb
+    obtain ⟨nf, e1, -⟩ := bind_some hb
+    exact ⟨nf, e1⟩
+  have hnfe := networkFees_some s nf hnf
+  have hnf0 : 0 ≤ nf := by omega
+  obtain ⟨hs1, hs2, hs3, hs4⟩ := split_exact s sh p v b nf tc0 hnf0 hnf hp hv hb h1 h2
+  -- free credit part
+  generalize hff : (if r.freeCredit > 0 then min r.freeCredit rem else 0) = fromFree
+  have hrem0 : 0 ≤ rem := by rw [hrem]; omega
+  have hfrom : 0 ≤ fromFree ∧ fromFree ≤ r.freeCredit ∧ fromFree ≤ rem ∧ rem - fromFree = 0 := by
+    rw [← hff]
+    split
+    · rename_i hpos
+      refine ⟨by omega, by omega, by omega, ?_⟩
+      rw [hrem]; omega
+    · rename_i hnpos
+      have : r.freeCredit = 0 := by omega
+      refine ⟨le_refl _, by omega, hrem0, ?_⟩
+      rw [hrem]; omega
+  refine ⟨⟨ps, fromFree, sumPayments ps + fromFree, p, v, b⟩, ?_, ?_, ?_, hfrom.1, hfrom.2.1, hpb, ?_, hs2, hs3, hs4⟩
+  · unfold finalizeFees
+    rw [ht]
+    simp only []
+    rw [hps]
+    simp only []
+    rw [hff]
+    rw [dsub_of_range (by omega) (by omega)]
+    rw [hp, hv, hb]
+    simp only []
+    have hbd : ¬ (s.badDebt ≠ 0) := by rw [f6, hrep]; exact fun hh => hh rfl
+    have hrq : ¬ (rem - fromFree ≠ 0) := by rw [hfrom.2.2.2]; exact fun hh => hh rfl
+    rw [if_neg hbd, if_neg hrq]
+    rw [dsub_of_range (by omega) (by omega), dadd_of_range (by omega) (by omega)]
+    simp only []
+    rw [dadd_of_range (by omega) (by omega)]
+    simp only []
+    rw [if_pos (by omega)]
+  · simp only; omega
+  · simp only; omega
+  · simp only; omega
+
 end Radix.Fee
